@@ -102,12 +102,13 @@ def family_jobs(names: Iterable[str], tier: str, variants: int = 0) -> Iterator[
     for name in names:
         mod = importlib.import_module(f"vt.families.{name}")
         if not variants:
-            yield from mod.jobs(tier)
+            # shapes marked owner_only belong to the owning check alone (not re-run by the composite checks)
+            yield from (j for j in mod.jobs(tier) if not j["meta"].get("owner_only"))
             continue
         from vt.checks.C01 import slice_keep  # pylint: disable=import-outside-toplevel
         from vt.families import mutate  # pylint: disable=import-outside-toplevel
 
-        jobs = list(mod.jobs(tier))
+        jobs = [j for j in mod.jobs(tier) if not j["meta"].get("owner_only")]
         yield from jobs
         keep = slice_keep(tier)
         base = sorted((j for j in jobs if keep(j)), key=lambda j: j["id"])
